@@ -64,7 +64,55 @@ PLANS = {
     "C19": P("JSON texts and the Python objects decoded from them (dict / list / str / int incl. beyond 64 bits / float / bool / None, non-finite floats) through jsonlogic_rs.apply (data omitted / given x serializer omitted / tagging wrapper x deserializer omitted / tagging wrapper) and jsonlogic_rs.apply_serialized (data omitted / None / given x deserializer omitted / given); malformed texts and over-limit nesting; debug and release extension, each in child interpreters. The return value must equal json.loads(library result) under a type-exact comparison (bool / int / float distinguished, floats by hex), errors must be exactly ValueError, supplied (de)serialisers must be called exactly once per argument. Non-trivial = the rule is an operation or an input is malformed; distinct by (rule, data) text.",
              ["c19.apply", "c19.apply_serialized", "c19.serializer-calls"], inproc={"quick": [], "thorough": []}, proc={"quick": [PL.py_lane], "thorough": [PL.py_lane]},
              cells=["py:apply_serialized(text,text):value", "py:apply_serialized(text):value", "py:apply(obj,obj,ser,de):value", "py:apply(obj):value", "py:apply_serialized(text,text):error", "py:apply(nan-rule):error"], evaluations=500),
+    "C01": P("totality of apply and of the public js_op helpers: 35 operators x all ordered pairs of 65 extreme values (64-bit integer extremes, 2^53 / 2^63 / 2^64 neighbours, +-1e308, subnormals, multi-byte strings, numeric strings naming the extremes, odd containers) in bracketed, bare and three-operand index-taking forms; extreme numeric path segments and integer keys; results forced out of range; the deepest chains serde_json delivers (63 bracketed / 127 bare levels) of every operator and in every operand position, 127-level data reached by 19 operators, 20 000-element and 60 000-character documents; random trees (depth <= 5) with extreme values spliced in; every helper on all ordered pairs of 212 values. Lanes: debug, release, release+overflow-checks (all every run), AddressSanitizer and Miri (thorough), the real CLI (debug + release; exit status in {0,1}, no signal, no 'panicked'; nesting 129 .. 200 000 levels) and the real Python extension (only ValueError, interpreter survives). Bounded termination: <= 10 s thread-CPU per call on documents <= 64 KiB. Non-trivial = every case (all are aimed at panics); distinct by (rule, data) text.",
+             ["c01.apply", "c01.helpers", "c01.cpu-bound", "c01.cli"],
+             inproc={"quick": [("relchk", 16, None), ("dev", 16, 0.25), ("release", 16, None)],
+                     "thorough": [("relchk", 16, None), ("dev", 16, 0.3), ("release", 16, None), ("asan", 16, 0.1), ("miri", 8, None)]},
+             proc={"quick": [PL.cli_lane, PL.py_lane], "thorough": [PL.cli_lane, PL.py_lane]},
+             cells=["matrix-2:value", "matrix-2:error", "matrix-bare:value", "deep-bare:127:*", "deep-bracketed:63:*", "deep-data:value", "wide:value", "range:overflow:error", "index-key:value", "helper:abstract_plus", "class:over-limit-rule"],
+             extra_assume=["'never hangs' is restated as a bound: every call on a document of at most 64 KiB finishes within 10 s of thread CPU time (observed maximum is reported); a wall-clock watchdog firing is inconclusive, not a violation",
+                           "domain: documents the text interfaces can deliver (serde_json recursion limit 128)"]),
+    "C17": P("a pool of (rule, data) pairs (same rule on different data, different rules on the same data, erroring and logging calls; 120 x 8 quick, 400 x 12 thorough) is first evaluated once per pair (isolated result, log trace and allocation count), then driven through randomised histories biased towards 'same rule, other data' / 'other rule, same data' / exact repeats; each result and log trace must equal the isolated one, inputs must be unchanged, net live heap after the call must be 0 and the allocation count must equal the isolated count (hidden caches / memos). Concurrency: 2 / 4 / 16 threads on a barrier share the pool (half of the calls on 8 hot pairs), random yields and spins; each result must equal the isolated one and the multiset of printed lines must be the union of the isolated traces; lanes: native, ThreadSanitizer (build-std), Miri with different seeds. Process level: one call per fresh process vs the same calls in one process; strace deny-list on the real CLI (only writes to fd 1 / 2). Non-trivial = history steps of the two biased kinds and distinct completion orders; distinct by (pair, predecessor) / schedule signature.",
+             ["c17.history", "c17.immutability", "c17.heap-conservation", "c17.alloc-determinism", "c17.concurrent", "c17.concurrent-effects", "c17.effects", "c17.log-identity", "c17.syscalls", "c17.fresh-process"],
+             inproc={"quick": [("relchk", 16, None), ("tsan", 8, 0.3), ("miri", 4, None)],
+                     "thorough": [("relchk", 16, None), ("tsan", 16, 0.5), ("miri", 16, None)]},
+             proc={"quick": [PL.strace_lane, PL.fresh_process_lane], "thorough": [PL.strace_lane, PL.fresh_process_lane]},
+             cells=["history:same-rule-other-data", "history:other-rule-same-data", "history:exact-repeat", "concurrent:threads=16", "concurrent:threads=2"],
+             extra_assume=["'every schedule' is sampled, not enumerated: the evidence reports the number of distinct completion orders, TSan executions and Miri seeds",
+                           "heap conservation is measured by a counting global allocator owned by the harness (per-thread counters); it is compiled out in the sanitizer and Miri lanes"]),
 }
+
+
+def sanitizer_reports(err):
+    """[(kind, first in-repo frame)] for every ThreadSanitizer / AddressSanitizer report block in stderr."""
+    import re
+    out = []
+    blocks = re.split(r"(?=WARNING: ThreadSanitizer|ERROR: AddressSanitizer|ERROR: LeakSanitizer)", err)
+    for b in blocks:
+        m = re.match(r"(WARNING: ThreadSanitizer|ERROR: AddressSanitizer|ERROR: LeakSanitizer): ([^\n(]*)", b)
+        if not m:
+            continue
+        kind = m.group(2).strip().replace(" ", "-")[:40]
+        frame = "?"
+        for fr in re.findall(r"#\d+ 0x[0-9a-f]+ in ([^\s]+)", b):
+            if "jsonlogic_rs" in fr:
+                frame = re.sub(r"::h[0-9a-f]{16}$", "", fr)[:80]
+                break
+        out.append((kind, frame))
+    # dedupe
+    seen, uniq = set(), []
+    for x in out:
+        if x not in seen:
+            seen.add(x)
+            uniq.append(x)
+    return uniq
+
+
+def miri_summary(err):
+    for line in err.splitlines():
+        if line.startswith("error:"):
+            return line[:120].replace(" ", "-")
+    return "report"
 
 
 def handle_failures(pid, lane, failures, agg, env=None):
@@ -72,6 +120,19 @@ def handle_failures(pid, lane, failures, agg, env=None):
     code under test is pinned to its in-flight call by a trace re-run."""
     for f in failures:
         err = f["stderr"]
+        san = sanitizer_reports(err)
+        if san or f.get("miri_report"):
+            # a sanitizer / Miri report is an observation about the code under test
+            mon = {"C17": "c17.sanitizer", "C01": "c01.sanitizer"}.get(pid, pid.lower() + ".sanitizer")
+            if not san:
+                san = [("miri", miri_summary(err))]
+            for kind, frame in san[:10]:
+                agg["violations"].append({"monitor": mon, "sig": "%s:%s:%s" % (lane, kind, frame), "rule": None, "data": None,
+                                          "expected": "no sanitizer / interpreter report", "got": {"report": err[-2500:], "exit": f["rc"]},
+                                          "note": "%s reported %s" % (lane, kind), "lane": lane, "shard": f["shard"], "count": 1, "direct": False})
+            m = agg["monitors"].setdefault(mon, {"observed": 0, "judged": 0, "unjudged": 0, "violations": 0})
+            m["violations"] += len(san)
+            continue
         if f["rc"] is None:
             raise O.Inconclusive("lane %s shard %d: wall-clock watchdog fired after %.0fs (not a verdict)" % (lane, f["shard"], f["wall_s"]))
         if "HARNESS-PANIC" in err or f["rc"] == 2:
@@ -101,15 +162,25 @@ def run_plan(pid, tier, seed, agg):
     relchk = O.build_lane("relchk")
     meta["selftest"] = O.selftest(relchk)
     for lane, nshards, scale in plan["inproc"][tier]:
-        binary = relchk if lane == "relchk" else O.build_lane(lane)
         t0 = time.time()
-        reports, failures = O.run_shards(binary, pid, tier, seed, lane, nshards, scale=scale)
+        if lane == "miri":
+            O.build_miri()
+            reports, failures = O.run_miri(pid, tier, seed, list(range(nshards)))
+            for r in reports:
+                O.merge_report(agg, r, lane)
+            O.lane_record(agg, lane, "Miri (UB + data-race interpreter), one process per -Zmiri-seed", reports, failures, time.time() - t0)
+            agg["extra"]["miri_seeds"] = nshards
+            handle_failures(pid, lane, failures, agg)
+            continue
+        binary = relchk if lane == "relchk" else O.build_lane(lane)
+        env = {"TSAN_OPTIONS": "halt_on_error=0 exitcode=66 second_deadlock_stack=1", "ASAN_OPTIONS": "detect_leaks=1 halt_on_error=1 abort_on_error=0 exitcode=67 detect_stack_use_after_return=0"}
+        reports, failures = O.run_shards(binary, pid, tier, seed, lane, nshards, extra_env=env, scale=scale)
         for r in reports:
             O.merge_report(agg, r, lane)
         tool = {"relchk": "release + overflow-checks + debug-assertions", "dev": "debug profile", "release": "release profile",
                 "asan": "AddressSanitizer (nightly)", "tsan": "ThreadSanitizer (nightly, build-std)"}.get(lane, lane)
         O.lane_record(agg, lane, tool, reports, failures, time.time() - t0)
-        handle_failures(pid, lane, failures, agg)
+        handle_failures(pid, lane, failures, agg, env)
     for fn in plan["proc"][tier]:
         fn(pid, tier, seed, agg, meta)
     return meta
